@@ -120,7 +120,7 @@ type svc struct {
 }
 
 type keyUse struct {
-	k                                     int
+	k                                    int
 	auth, assert, capInv, capDel, keyAgr bool
 }
 
@@ -525,7 +525,7 @@ func genSet(r *ev.Run, idx int, keys []keyMat) *eventSet {
 	set := &eventSet{Index: idx, Shape: shapes[idx%len(shapes)]}
 	// 6-7 events, orders sampled: a quarter of the sets in the thorough tier, a few in the quick tier
 	big := r.Thorough() && (idx/len(shapes))%4 == 3 || !r.Thorough() && idx >= 2*len(shapes) && idx%2 == 0
-	rich := rnd.Intn(3) != 0                         // several controllers / services / keys
+	rich := rnd.Intn(3) != 0 // several controllers / services / keys
 	idReuse := rnd.Intn(4) == 0
 	timeMode := []string{"monotone", "equal-siblings", "all-equal", "skewed"}[rnd.Intn(4)]
 	clockJitter := rnd.Intn(3) == 0
@@ -1040,18 +1040,20 @@ type finding struct {
 }
 
 type runResult struct {
-	order     []int
-	replica   int
-	variant   string
-	digests   [][]qres // final digest; with reopen variants also the digest after reopening from disk
-	stage     []string
-	findings  []finding
-	unspec    map[string]int
-	adds      int
-	redeliver int
-	reopens   int
-	online    int
-	broken    string
+	order       []int
+	replica     int
+	variant     string
+	digests     [][]qres // final digest; with reopen variants also the digest after reopening from disk
+	stage       []string
+	findings    []finding
+	unspec      map[string]int
+	adds        int
+	redeliver   int
+	reopens     int
+	online      int
+	countChecks int
+	headChecks  int
+	broken      string
 }
 
 func orderString(set *eventSet, order []int) string {
@@ -1065,9 +1067,9 @@ func orderString(set *eventSet, order []int) string {
 // run delivers the events of set in the given order to a fresh store. replica 0 is a plain run; higher
 // replicas also re-deliver already delivered transactions at seeded positions, reopen the store from disk at a
 // seeded position and take the digest both before and after a final reopen.
-func run(seed int64, set *eventSet, lab labeler, oi int, order []int, replica int) (res runResult) {
+func run(r *ev.Run, set *eventSet, lab labeler, oi int, order []int, replica int) (res runResult) {
 	res = runResult{order: order, replica: replica, variant: "plain", unspec: map[string]int{}}
-	rnd := rand.New(rand.NewSource(seed*7919 + int64(set.Index)*1000003 + int64(oi)*101 + int64(replica)))
+	rnd := r.Rand(fmt.Sprintf("run/%d/%d/%d", set.Index, oi, replica))
 	dir, err := os.MkdirTemp("", "c10-")
 	if err != nil {
 		res.broken = err.Error()
@@ -1107,6 +1109,7 @@ func run(seed int64, set *eventSet, lab labeler, oi int, order []int, replica in
 		res.adds++
 	}
 	deactDelivered := map[string]bool{}
+	delivered := map[string]bool{}
 	after := set.maxTime.Add(time.Hour)
 	for pos, i := range order {
 		deliver(i, false)
@@ -1153,9 +1156,13 @@ func run(seed int64, set *eventSet, lab labeler, oi int, order []int, replica in
 				res.unspec["resolve-by-time-after-deactivation-returns-older-active-version"]++
 			}
 		}
+		// online: conflicted status and the counts agree with each other after every delivery
+		delivered[set.Events[i].DID.String()] = true
+		checkCounts(e.st, set, delivered, orderString(set, order), orderString(set, order[:pos+1]), &res)
 	}
 	res.digests = append(res.digests, digest(e.st, set, lab))
 	res.stage = append(res.stage, "after-last-add")
+	checkHeads(e.st, set, lab, orderString(set, order), &res)
 	if replica > 0 {
 		if err := e.reopen(); err != nil {
 			res.broken = "reopen: " + err.Error()
@@ -1166,6 +1173,92 @@ func run(seed int64, set *eventSet, lab labeler, oi int, order []int, replica in
 		res.stage = append(res.stage, "after-reopen-from-disk")
 	}
 	return
+}
+
+// checkCounts: "the same ... conflicted status and counts" - the number of conflicted documents the store reports, the
+// documents its Conflicted() iterator yields and the DIDs whose latest version is conflicted are the same number; the
+// document count is the number of DIDs of which a transaction was delivered.
+func checkCounts(st didstore.Store, set *eventSet, delivered map[string]bool, order, prefix string, res *runResult) {
+	res.countChecks++
+	conflictedLatest := 0
+	for _, id := range set.DIDs {
+		if !delivered[id.String()] {
+			continue
+		}
+		if _, m, err := safeResolve(st, id, &resolver.ResolveMetadata{AllowDeactivated: true}); err == nil && m != nil && m.IsConflicted() {
+			conflictedLatest++
+		}
+	}
+	cc, err1 := st.ConflictedCount()
+	iter := 0
+	err2 := st.Conflicted(func(did.Document, resolver.DocumentMetadata) error { iter++; return nil })
+	if err1 != nil || err2 != nil || int(cc) != conflictedLatest || iter != conflictedLatest {
+		res.findings = append(res.findings, finding{"C10/count-mismatch/conflicted", fmt.Sprintf("after delivering [%s]: ConflictedCount()=%d (err=%v), Conflicted() yields %d (err=%v), but %d DID(s) resolve to a conflicted latest version", prefix, cc, err1, iter, err2, conflictedLatest),
+			map[string]any{"order": order, "delivered": prefix, "conflictedCount": cc, "conflictedIterator": iter, "conflictedLatest": conflictedLatest}})
+	}
+	dc, err := st.DocumentCount()
+	if err != nil || int(dc) != len(delivered) {
+		res.findings = append(res.findings, finding{"C10/count-mismatch/documents", fmt.Sprintf("after delivering [%s]: DocumentCount()=%d (err=%v) but transactions of %d DID(s) were delivered", prefix, dc, err, len(delivered)),
+			map[string]any{"order": order, "delivered": prefix, "documentCount": dc, "dids": len(delivered)}})
+	}
+}
+
+// checkHeads: "parallel updates are merged into one conflicted document, a later update that references all branches resolves
+// the conflict". With Lamport-consistent clocks every transaction is ordered after the ones it references, so once the whole set is
+// delivered the latest version stems from exactly the transactions of the DID that no other transaction of the DID references
+// (its heads): one head = not conflicted and the head's own document; several = conflicted with exactly these sources.
+func checkHeads(st didstore.Store, set *eventSet, lab labeler, order string, res *runResult) {
+	for _, id := range set.DIDs {
+		referenced := map[string]bool{}
+		for _, e := range set.Events {
+			if e.DID.Equals(id) {
+				for _, p := range e.Tx.Previous {
+					referenced[p.String()] = true
+				}
+			}
+		}
+		heads := map[string]*evt{}
+		for i := range set.Events {
+			e := &set.Events[i]
+			if e.DID.Equals(id) && !referenced[e.Tx.Ref.String()] {
+				heads[e.Tx.Ref.String()] = e
+			}
+		}
+		var want []string
+		for _, e := range heads {
+			want = append(want, e.Label)
+		}
+		sort.Strings(want)
+		res.headChecks++
+		doc, m, err := safeResolve(st, id, &resolver.ResolveMetadata{AllowDeactivated: true})
+		if err != nil || m == nil {
+			res.findings = append(res.findings, finding{"C10/resolution/latest-unresolvable", fmt.Sprintf("after order [%s] the latest version does not resolve: %v", order, err), map[string]any{"order": order}})
+			continue
+		}
+		var got []string
+		for _, s := range m.SourceTransactions {
+			got = append(got, lab.of(s))
+		}
+		sort.Strings(got)
+		w := map[string]any{"order": order, "heads": want, "sourceTransactions": got, "conflicted": m.IsConflicted()}
+		if !reflect.DeepEqual(got, want) {
+			site := "conflict-not-resolved"
+			if len(got) < len(want) {
+				site = "branch-lost"
+			}
+			res.findings = append(res.findings, finding{"C10/resolution/" + site, fmt.Sprintf("after order [%s] the latest version stems from {%s} but the unreferenced transactions (branches) of the DID are {%s}", order, strings.Join(got, ","), strings.Join(want, ",")), w})
+			continue
+		}
+		if len(want) == 1 {
+			head := heads[m.SourceTransactions[0].String()]
+			var pub did.Document
+			_ = json.Unmarshal(head.Payload, &pub)
+			if !m.Hash.Equals(head.Tx.PayloadHash) || docBytes(*doc) != docBytes(pub) {
+				w["resolved"], w["published"] = docBytes(*doc), docBytes(pub)
+				res.findings = append(res.findings, finding{"C10/resolution/not-the-resolving-document", fmt.Sprintf("after order [%s] the only head is %s but the latest version is not its document (hash %s, payload hash %s)", order, head.Label, m.Hash, head.Tx.PayloadHash), w})
+			}
+		}
+	}
 }
 
 // ---- comparison and classification --------------------------------------------------------------------------
@@ -1358,6 +1451,8 @@ type runInfo struct {
 	redeliv  int
 	reopens  int
 	online   int
+	counts   int
+	heads    int
 	queries  int
 	broken   string
 }
@@ -1444,8 +1539,8 @@ func TestCheck(t *testing.T) {
 			defer wg.Done()
 			for j := range jobs {
 				w := works[j.si]
-				res := run(r.Seed(), w.set, w.lab, j.oi, w.ords[j.oi], j.rep)
-				ri := runInfo{findings: res.findings, unspec: res.unspec, adds: res.adds, redeliv: res.redeliver, reopens: res.reopens, online: res.online, broken: res.broken}
+				res := run(r, w.set, w.lab, j.oi, w.ords[j.oi], j.rep)
+				ri := runInfo{findings: res.findings, unspec: res.unspec, adds: res.adds, redeliv: res.redeliver, reopens: res.reopens, online: res.online, counts: res.countChecks, heads: res.headChecks, broken: res.broken}
 				for di, d := range res.digests {
 					h := digestHash(d)
 					ri.hashes = append(ri.hashes, h)
@@ -1508,6 +1603,8 @@ func TestCheck(t *testing.T) {
 				r.Count("redeliveries", ri.redeliv)
 				r.Count("reopens_from_disk", ri.reopens)
 				r.Count("online_deactivation_checks", ri.online)
+				r.Count("online_count_consistency_checks", ri.counts)
+				r.Count("final_head_checks", ri.heads)
 				r.Count("queries_answered", ri.queries)
 				r.Count("stores", 1)
 				for k, n := range ri.unspec {
